@@ -313,6 +313,11 @@ func main() {
 		sp(&ctor{name: "Leaf_" + t + "_c", outs: simpleOut(t)})
 	}
 
+	// appended later (keeps the ids of everything above stable)
+	// a field carrying both a name and a group tag (a descriptor cannot have both: the Add call must be rejected)
+	sp(&ctor{name: "OutNG_K0K1", resultObj: true, outs: []out{{typ: "K0", key: "k", group: "g"}, {typ: "K1"}}})
+	sp(&ctor{name: "OutNG_K1S0", resultObj: true, outs: []out{{typ: "K1"}, {typ: "S0", key: "k", group: "g"}}})
+
 	writeTypes()
 	writeCtors()
 }
